@@ -90,8 +90,11 @@ C09Pure ==
   /\ IsEv("C09Pure")
   /\ LET e == Trace[l]
      IN Consume(SumSeq(e.rows, LAMBDA r :
-                  Chk("C09.pure.call-changes-its-receiver", << e.at, r[1], r[2], r[3] >>, r[4] = r[5])
-                  + Chk("C09.pure.same-call-different-result", << e.at, r[1], r[2], r[3] >>, r[6] = r[7])))
+                  IF r[3] = "alone vs after the others"
+                    \* an accessor called alone on a fresh object = the same accessor after all the others were called
+                    THEN Chk("C09.pure.result-depends-on-earlier-accessors", << e.at, r[1], r[2] >>, r[4] = r[5] /\ r[6] = r[7])
+                    ELSE Chk("C09.pure.call-changes-its-receiver", << e.at, r[1], r[2], r[3] >>, r[4] = r[5])
+                         + Chk("C09.pure.same-call-different-result", << e.at, r[1], r[2], r[3] >>, r[6] = r[7])))
 
 TraceInit == KitInit
 TraceNext == C09Run \/ C09Hist \/ C09Stress \/ C09Race \/ C09Total \/ C09Pure
